@@ -92,4 +92,235 @@ theorem get?_foldl_set_of_not_mem {w : List (Vb × α)} (m : AMap α) {x : Vb}
     exact absurd (hpx ▸ AMap.mem_keys_of_mem hp) h
 
 end amap
+
+/-! ## the one `setOffset` call a step makes -/
+
+/-- the `setOffset (vb, off, dirty)` call made by this op, if any: the `Ack` closure of
+    a context of the current session, or an absorbed server event (reserved-key
+    document: not dirty; seqno-advanced / system event: dirty) -/
+def settleOf (s : St) (op : Op) : Option (Vb × Offset × Bool) :=
+  match op with
+  | .ack i =>
+    match s.ctxs[i]? with
+    | some p => if p.sess ≠ s.sess then none else some (p.vb, p.off, true)
+    | none => none
+  | .ev vb e =>
+    match s.observers.get? vb with
+    | none => none
+    | some o =>
+      match (Obs.step s.cfg.obs o e).2 with
+      | .fwd (.doc d off _ _) => if isMetaKey d.key then some (vb, off, false) else none
+      | .fwd (.seqAdv off) => some (vb, off, true)
+      | .fwd (.sys _ off) => some (vb, off, true)
+      | _ => none
+  | _ => none
+
+/-- the state in which that call is made differs from `s` only in fields `setOffset` does not read -/
+theorem step_eq_setOffset (s : St) (op : Op) :
+    match settleOf s op with
+    | some (vb, off, d) =>
+      ∃ s1 : St, s1.cfg = s.cfg ∧ s1.offsets = s.offsets ∧ s1.dirtyMaps = s.dirtyMaps ∧ s1.curGen = s.curGen ∧
+        (step s op).1.offsets = (setOffset s1 vb off d).1.offsets ∧
+        (step s op).1.dirtyMaps = (setOffset s1 vb off d).1.dirtyMaps ∧
+        (step s op).2 = (setOffset s1 vb off d).2
+    | none => (∀ vb e, op = .ev vb e → (step s op).1.offsets = s.offsets ∧ (step s op).1.dirtyMaps = s.dirtyMaps ∧
+                  ∀ vb' o, Obsv.track vb' o ∉ (step s op).2) ∧
+              (∀ i, op = .ack i → (step s op).1.offsets = s.offsets ∧ (step s op).1.dirtyMaps = s.dirtyMaps ∧
+                  ∀ vb' o, Obsv.track vb' o ∉ (step s op).2) := by
+  cases op with
+  | ack i =>
+    simp only [settleOf, step]
+    cases hc : s.ctxs[i]? with
+    | none => simp
+    | some p =>
+      by_cases hs : p.sess ≠ s.sess
+      · simp [hs]
+      · simp only [hs, if_false]
+        exact ⟨s, rfl, rfl, rfl, rfl, rfl, rfl, rfl⟩
+  | ev vb e =>
+    simp only [settleOf, step]
+    cases ho : s.observers.get? vb with
+    | none => simp [evStep_of_no_obs e ho]
+    | some o =>
+      rw [evStep_of_obs e ho]
+      simp only
+      generalize Obs.step s.cfg.obs o e = r
+      obtain ⟨o', out⟩ := r
+      cases out with
+      | fwd le =>
+        cases le with
+        | doc d off c t =>
+          cases hm : isMetaKey d.key with
+          | true =>
+            simp only [hm, if_true, listen_doc_meta _ _ _ _ _ hm]
+            exact ⟨{ s with observers := s.observers.set vb o' }, rfl, rfl, rfl, rfl, rfl, rfl, rfl⟩
+          | false =>
+            simp [hm, listen_doc_user _ _ _ _ _ hm]
+        | seqAdv off => exact ⟨{ s with observers := s.observers.set vb o' }, rfl, rfl, rfl, rfl, rfl, rfl, rfl⟩
+        | sys k off => exact ⟨{ s with observers := s.observers.set vb o' }, rfl, rfl, rfl, rfl, rfl, rfl, rfl⟩
+        | marker => simp [listen]
+        | oso => simp [listen]
+      | _ => simp
+  | _ => simp [settleOf]
+
+theorem accepts_congr {s s1 : St} (hc : s1.cfg = s.cfg) (ho : s1.offsets = s.offsets) (vb : Vb) (o : Offset) :
+    accepts s1 vb o = accepts s vb o := by
+  unfold accepts; rw [hc, ho]
+
+theorem curDirty_congr {s s1 : St} (hd : s1.dirtyMaps = s.dirtyMaps) (hg : s1.curGen = s.curGen) :
+    curDirty s1 = curDirty s := by
+  unfold curDirty; rw [hd, hg]
+
+/-- is `op` an acknowledgement or a server event -/
+def isSettleOp : Op → Bool
+  | .ack _ | .ev _ _ => true
+  | _ => false
+
+/-- lookup in the offsets after an acknowledgement / server event -/
+theorem settle_get? (s : St) (op : Op) (hop : isSettleOp op = true) (v : Vb) :
+    (step s op).1.offsets.get? v =
+      match settleOf s op with
+      | some (vb, off, _) => if v = vb ∧ accepts s vb off = true then some off else s.offsets.get? v
+      | none => s.offsets.get? v := by
+  have := step_eq_setOffset s op
+  cases hso : settleOf s op with
+  | none =>
+    rw [hso] at this
+    cases op with
+    | ack i => rw [(this.2 i rfl).1]
+    | ev vb e => rw [(this.1 vb e rfl).1]
+    | _ => simp [isSettleOp] at hop
+  | some r =>
+    obtain ⟨vb, off, d⟩ := r
+    rw [hso] at this
+    obtain ⟨s1, hc, ho, _, _, h1, _, _⟩ := this
+    simp only [h1, setOffset_get?, accepts_congr hc ho, ho]
+
+/-- the offsets map after an acknowledgement / server event -/
+theorem settle_offsets (s : St) (op : Op) (hop : isSettleOp op = true) :
+    (step s op).1.offsets =
+      match settleOf s op with
+      | some (vb, off, _) => if accepts s vb off = true then s.offsets.set vb off else s.offsets
+      | none => s.offsets := by
+  have := step_eq_setOffset s op
+  cases hso : settleOf s op with
+  | none =>
+    rw [hso] at this
+    cases op with
+    | ack i => rw [(this.2 i rfl).1]
+    | ev vb e => rw [(this.1 vb e rfl).1]
+    | _ => simp [isSettleOp] at hop
+  | some r =>
+    obtain ⟨vb, off, d⟩ := r
+    rw [hso] at this
+    obtain ⟨s1, hc, ho, _, _, h1, _, _⟩ := this
+    simp only [h1, setOffset_offsets, accepts_congr hc ho, ho]
+
+/-- the current dirty list after an acknowledgement / server event, as a set -/
+theorem settle_mem_curDirty (s : St) (op : Op) (hop : isSettleOp op = true) (x : Vb) :
+    x ∈ curDirty (step s op).1 ↔
+      (∃ off, settleOf s op = some (x, off, true) ∧ accepts s x off = true) ∨ x ∈ curDirty s := by
+  have hg : (step s op).1.curGen = s.curGen :=
+    step_curGen s (by cases op <;> first | rfl | simp [isSettleOp] at hop)
+  have := step_eq_setOffset s op
+  cases hso : settleOf s op with
+  | none =>
+    rw [hso] at this
+    have hd : (step s op).1.dirtyMaps = s.dirtyMaps := by
+      cases op with
+      | ack i => exact (this.2 i rfl).2.1
+      | ev vb e => exact (this.1 vb e rfl).2.1
+      | _ => simp [isSettleOp] at hop
+    rw [curDirty_congr hd hg]; simp
+  | some r =>
+    obtain ⟨vb, off, d⟩ := r
+    rw [hso] at this
+    obtain ⟨s1, hc, ho, hd1, hg1, _, h2, _⟩ := this
+    have e1 : curDirty (step s op).1 = curDirty (setOffset s1 vb off d).1 := by
+      unfold curDirty; rw [h2, hg, setOffset_curGen, hg1]
+    rw [e1, mem_curDirty_setOffset, accepts_congr hc ho, curDirty_congr hd1 hg1]
+    constructor
+    · rintro (⟨rfl, rfl, ha⟩ | h)
+      · exact Or.inl ⟨off, rfl, ha⟩
+      · exact Or.inr h
+    · rintro (⟨off', he, ha⟩ | h)
+      · injection he with he; injection he with h1 he; injection he with h2 h3
+        subst h1 h2 h3
+        exact Or.inl ⟨rfl, rfl, ha⟩
+      · exact Or.inr h
+
+/-- the notifications of an acknowledgement / server event -/
+theorem settle_track (s : St) (op : Op) (hop : isSettleOp op = true) (vb' : Vb) (o : Offset) :
+    Obsv.track vb' o ∈ (step s op).2 ↔
+      ∃ d, settleOf s op = some (vb', o, d) ∧ accepts s vb' o = true := by
+  have := step_eq_setOffset s op
+  cases hso : settleOf s op with
+  | none =>
+    rw [hso] at this
+    have : Obsv.track vb' o ∉ (step s op).2 := by
+      cases op with
+      | ack i => exact (this.2 i rfl).2.2 vb' o
+      | ev vb e => exact (this.1 vb e rfl).2.2 vb' o
+      | _ => simp [isSettleOp] at hop
+    simp [this]
+  | some r =>
+    obtain ⟨vb, off, d⟩ := r
+    rw [hso] at this
+    obtain ⟨s1, hc, ho, _, _, _, _, h3⟩ := this
+    rw [h3, setOffset_out, accepts_congr hc ho]
+    by_cases ha : accepts s vb off = true
+    · simp only [ha, if_true, List.mem_singleton]
+      constructor
+      · intro h; injection h with h1 h2; subst h1 h2; exact ⟨d, rfl, ha⟩
+      · rintro ⟨d', he, _⟩
+        injection he with he; injection he with h1 he; injection he with h2 _
+        subst h1 h2; rfl
+    · simp only [ha]
+      constructor
+      · intro h; simp at h
+      · rintro ⟨d', he, ha'⟩
+        injection he with he; injection he with h1 he; injection he with h2 _
+        subst h1 h2; exact absurd ha' ha
+
+theorem vbRange_nodup (c : Cfg) : (vbRange c).Nodup := by
+  unfold vbRange List.Nodup
+  rw [List.pairwise_map]
+  have := List.nodup_range (n := c.hi + 1 - c.lo)
+  unfold List.Nodup at this
+  refine this.imp ?_
+  intro a b hab h
+  have : @Eq Nat (a + c.lo) (b + c.lo) := h
+  omega
+
+/-- the keys of the offsets map are always pairwise distinct -/
+theorem offsets_nodup_step (s : St) (op : Op) (h : (AMap.keys s.offsets).Nodup) :
+    (AMap.keys (step s op).1.offsets).Nodup := by
+  by_cases hop : isSettleOp op = true
+  · rw [settle_offsets s op hop]
+    split
+    · split
+      · exact nodup_keys_set h
+      · exact h
+    · exact h
+  · cases op with
+    | ack i => simp [isSettleOp] at hop
+    | ev vb e => simp [isSettleOp] at hop
+    | «open» =>
+      by_cases hio : s.isOpen = true
+      · simp only [step, openSession_of_isOpen hio]; exact h
+      · have hio' : s.isOpen = false := by simpa using hio
+        cases hl : load (openBase s) with
+        | none => simp [step, openSession_of_load_none hio' hl, openBase, AMap.keys]
+        | some r =>
+          obtain ⟨offs, dirty, any⟩ := r
+          simp only [step, openSession_of_load_some hio' hl]
+          rw [load_keys hl]; exact vbRange_nodup _
+    | close =>
+      simp only [step, closeSession]
+      split
+      · exact h
+      · simp [AMap.keys]
+    | crash => simp [step, crash, AMap.keys]
+    | _ => rw [step_offsets s (by rfl)]; exact h
+
 end GoDcp.B
